@@ -13,9 +13,10 @@ EXPLANATION = (
     "digest(subject(e)) exactly under level < limit (ordering table over level <,=,> limit). C15.5: the predicate filter is "
     "eq(digest(as_predicate(subject(a))), digest(envelope(p))) over assertions(self); the single-result forms over "
     "len in {0,1,2} give {Nonexistent|None, first, Ambiguous}. C15.6: subject()/assertions() return the matched node's fields, "
-    "else self / empty; the case predicates is_<case>, is_subject_<case>, is_obscured and the accessors as_predicate/as_object/Assertion::predicate/object that all other rules treat as opaque have exactly their per-case tables. C15.7: query-family panic sites are in the C16 ledger. C15.2 also judges the level and parent the tree walk hands to each child kind, per valuation of `self is a node` (terms built with edge-sensitive reaching definitions); C15.4 also requires shallow_digests/deep_digests = digests(self, 2 / usize::MAX). C15.5 also: objects_for_predicate = the object of the subject of every matching assertion. C15.1/C15.2 also: no test of the level parameter can skip a recursive call. C15.9: each generated TryFrom<Envelope> for T is try_into(try_leaf(envelope)?). Does not decide std collection semantics.")
+    "else self / empty; the case predicates is_<case>, is_subject_<case>, is_obscured and the accessors as_predicate/as_object/Assertion::predicate/object that all other rules treat as opaque have exactly their per-case tables. C15.7: query-family panic sites are in the C16 ledger. C15.2 also judges the level and parent the tree walk hands to each child kind, per valuation of `self is a node` (terms built with edge-sensitive reaching definitions); C15.4 also requires shallow_digests/deep_digests = digests(self, 2 / usize::MAX). C15.5 also: objects_for_predicate = the object of the subject of every matching assertion. C15.1/C15.2 also: no test of the level parameter can skip a recursive call. C15.9: each generated TryFrom<Envelope> for T is try_into(try_leaf(envelope)?). Does not decide std collection semantics."
+    " C15.10: in every case arm of extract_subject only the matched case's payload is examined.")
 TRUSTED = ['Vec::len/is_empty/index, Iterator::filter/collect have std semantics']
-FLOORS = {'C15.1': 8, 'C15.2': 12, 'C15.3': 6, 'C15.4': 4, 'C15.5': 5, 'C15.9': 1, 'C15.6': 2}
+FLOORS = {'C15.1': 8, 'C15.2': 12, 'C15.3': 6, 'C15.4': 4, 'C15.5': 5, 'C15.9': 1, 'C15.10': 1, 'C15.6': 2}
 P1, P2, P3, P4, P5 = [('param', i) for i in range(1, 6)]
 EDGE = {'Node.subject': 'Subject', 'Node.assertions': 'Assertion', 'Assertion.predicate': 'Predicate', 'Assertion.object': 'Object', 'Wrapped.envelope': 'Wrapped'}
 
@@ -555,6 +556,36 @@ def check(ctx):
                  'yield a value that was never stored' % ((b.impl_self or '?').split('::')[-1], fmt(v)[:160]), key='C15.9|' + (b.impl_self or b.path))
     if conv and not badc:
         ctx.ok('C15.9', ctx.site(conv[0]), '%d typed conversions TryFrom<Envelope> for T are try_into(try_leaf(envelope)?)' % len(conv), sample=str(len(conv)))
+    # ---------------- C15.10 typed extraction of the subject, per case: the value handed to the type test / conversion is the payload of
+    # the matched case (the wrapped envelope, the assertion, the digest, the known value, the leaf's CBOR, for a node its subject) - never
+    # the element itself ("returns the stored value or an error, never another value")
+    xs = F.method1('Envelope', 'extract_subject')
+    if xs is None:
+        ctx.lost('C15.10', 'Envelope::extract_subject')
+    else:
+        xtb = TermBuilder(F, xs)
+        datoms = find_terms(xs, xtb, lambda x: x[0] == 'discr' and m_call(x[1], name='case', self_suffix='Envelope') is not None
+                            and strip_sites(m_call(x[1], name='case', self_suffix='Envelope')[0]) == P1)
+        variants_ = adt_variants(F, CASE)
+        if len(datoms) != 1:
+            ctx.fail('C15.10', ctx.site(xs), 'extract_subject does not dispatch on case(self)', key='C15.10|dispatch', rule='FLOW/IDIOM-UNKNOWN')
+        else:
+            badx = []
+            for i, vn in enumerate(variants_):
+                for bi_, c_, args_ in calls_under(xs, xtb, {datoms[0]: i}):
+                    if c_ is None or c_.name in ('case', 'clone', 'branch', 'from_residual'):
+                        continue
+                    for a_ in args_:
+                        sa = strip_sites(detry(a_))
+                        while sa[0] == 'call' and call_name(sa) in ('clone', 'deref', 'borrow', 'as_ref') and len(sa[2]) == 1:
+                            sa = strip_sites(detry(sa[2][0]))
+                        if sa == P1 and c_.name not in ('case',):
+                            badx.append((vn, c_.name))
+            if badx:
+                ctx.fail('C15.10', ctx.site(xs), 'extract_subject hands the element itself (not the payload of its case) to %s in the %s arm: the caller gets the wrapper / container instead of '
+                         'the stored value' % (badx[0][1], badx[0][0]), key='C15.10|self|' + badx[0][0])
+            else:
+                ctx.ok('C15.10', ctx.site(xs), 'extract_subject: in every case arm only the matched case\'s payload is examined (%d cases)' % len(variants_))
     # ---------------- C15.6 accessors
     for name, field, default in (('subject', 'subject', 'self'), ('assertions', 'assertions', 'empty')):
         b = F.method1('Envelope', name)
